@@ -86,6 +86,9 @@ def field_reads(P, W, fnpath, adts, depth=0):
     for q, bb in P.callees(fn):
         if q in P.fns and P.fns[q].kind == "closure":
             out |= field_reads(P, W, q, adts, depth + 1)
+        elif q in P.fns and P.fns[q].impl_self == fn.impl_self and q != fnpath:
+            # a getter expressed through other getters of the same type reads what they read
+            out |= field_reads(P, W, q, adts, depth + 1)
     return out
 
 
@@ -277,7 +280,9 @@ def run(ctx):
             # exactly the Ok payload of this iteration's send_to (possibly through a variable initialised to 0): no arithmetic on it
             alts = n[1] if n[0] == "phi" else (n,)
             alts = [uncast(x) for x in alts if x != ("int", 0)]
-            okn = len(alts) == 1 and alts[0][0] == "vfield" and alts[0][2] == "Ok" and is_call(alts[0][1]) and alts[0][1][3] == (sr.path, sb)
+            from lib import through_conversions
+            okn = len(alts) == 1 and alts[0][0] == "vfield" and alts[0][2] in ("Ok", "Some") and is_call(through_conversions(alts[0])[0]) and through_conversions(alts[0])[0][3] == (sr.path, sb) \
+                and strip_generics(through_conversions(alts[0])[0][1]).endswith("UdpSocket::send_to")
             if not okn and len(alts) == 1:
                 # or the length of the very datagram handed to this send_to (a successful UDP send returns exactly that length)
                 x = alts[0]
@@ -303,11 +308,15 @@ def run(ctx):
     # send_client_stats: clear only after push
     sc = ctx.fn("roughenough::server::Server::send_client_stats")
     cev = W.ev(sc.path)
-    push = [bb for bb, t in sc.calls() if callee_name(t["fn"].get("path", "")) in ("force_push", "push")]
+    push = [bb for bb, t in sc.calls() if callee_name(t["fn"].get("path", "")) in ("force_push", "push") and "Queue" in t["fn"].get("path", "")]
     clear = [bb for bb, t in sc.calls() if t["fn"].get("trait") == TRAIT and t["fn"].get("trait_method") == "clear"]
     okc = len(push) == 1 and len(clear) == 1 and sc.dominates(push[0], clear[0])
     if okc:
         snap = W.expand(cev.call_args(push[0])[1])
         okc = values.contains(snap, lambda s: is_call(s) and s[1].endswith("ServerStats::iter"))
+        if not okc and isinstance(snap, tuple) and snap and snap[0] == "obj":
+            # a vector filled from the recorder's iterator (with_capacity + extend) is the same snapshot
+            pcs = W.buffer_seq(snap) or []
+            okc = any(values.contains(W.expand(x), lambda s: is_call(s) and s[1].endswith("ServerStats::iter")) for x in pcs)
     ctx.check("send-wiring", "snapshot-pushed-before-clear", okc, "the recorder is cleared only after its snapshot was pushed to the queue",
               "send_client_stats clears the recorder without having pushed the snapshot", ctx.loc(sc))
